@@ -146,6 +146,39 @@ def run(tier, seed, prop="C02", want_pred=None, forms=None):
                             continue
                         pr = (lambda a, p0=want_pred(mb): a == "panic" or p0(a))
                         cases.append(Case(line, cls="short-buffer/" + f, expect=pr, meta={"panic_ok": True, "no_sodium": True, "no_spec": True, "why": "undersized message buffer: panic (caller contract) or an error that leaves the buffer untouched"}))
+    if prop == "C17":
+        # boxes "from" a peer whose public key has small order (anyone can make them: the shared key is HSalsa20(0)): whatever a form
+        # decides — dryoc opens them (F17), libsodium refuses — an Err must leave the buffer untouched; sealed boxes with such an
+        # ephemeral key likewise.  Judged by the predicate and the Lean model (no libsodium column: it differs by F17).
+        for i, u in enumerate(list(refs.X_LOW_ORDER)[:7]):
+            for n in (1, 20, 70):
+                I = Inst(rng, n, style=0)
+                shared = refs.hsalsa20(bytes(32), bytes(16))
+                ct = refs.secretbox(shared, I.nonce, I.msg)
+                for form in forms:
+                    f = form.split(" ")[0]
+                    if not f.startswith("box_open") or "afternm" in f:
+                        continue
+                    I2 = I; old_spk = I.spk
+                    I.spk = u
+                    for tam in (False, True):
+                        c = bytearray(ct)
+                        if tam:
+                            c[16 + (i % n)] ^= 0x04
+                        line = open_line(form, I, ct=bytes(c))
+                        initial = (bytes(c)[16:] if "detached" in f else bytes(c)) if "inplace" in f else buf(n)
+                        p0 = want_pred(initial)
+                        cases.append(Case(line, cls="small-order-peer/" + f, expect=(lambda a, p0=p0, tam=tam: (a.startswith("ok ") and not tam) or p0(a)),
+                                          meta={"no_sodium": True, "no_spec": True, "why": "box under a small-order peer key: Ok with the message, or Err with the buffer untouched"}))
+                    I.spk = old_spk
+                sealed = u + refs.secretbox(shared, refs.seal_nonce(u, I.rpk), I.msg)
+                for tam in (False, True):
+                    c = bytearray(sealed)
+                    if tam:
+                        c[48] ^= 1
+                    mb = buf(n)
+                    cases.append(Case("box_seal_open %s %s %s %s" % (hx(I.rpk), hx(I.rsk), hx(bytes(c)), hx(mb)), cls="small-order-peer/box_seal_open",
+                                      expect=(lambda a, p0=want_pred(mb), tam=tam: (a.startswith("ok ") and not tam) or p0(a)), meta={"no_sodium": True, "no_spec": True}))
     errcases = []
     if prop == "C17":
         # the ERROR VALUE is a caller-visible output too: its text must not describe the rejected data.  For each form and length the
